@@ -57,13 +57,15 @@ theorem container_to_string_step (fmt : Nat → Bytes) (g f : Nat) (value : Byte
       have hinc := pretty_opts_inc_indent_agrees pretty indent (by omega)
       have hmul : Rs.mul .usize ((4 : Nat) : Int) ((hdrLen h : Nat) : Int) = .ok ((4 * hdrLen h : Nat) : Int) :=
         Rs.mul_usize_nat 4 (hdrLen h) (by omega)
+      have hmul' : Rs.mul .usize ((hdrLen h : Nat) : Int) ((4 : Nat) : Int) = .ok ((4 * hdrLen h : Nat) : Int) := by
+        rw [Rs.mul_usize_nat (hdrLen h) 4 (by omega), Nat.mul_comm]
       have hrun := cts_arr_run fmt (Tr.scalar_to_string fmt g) value (offset : Int) pretty (indent : Int) (indent + 2)
         (hdrLen h) f ((0 : Nat) : Int) 0 (4 + offset) (4 + offset + 4 * hdrLen h)
         (json ++ (if pretty then Fn.lit "[\n" else Fn.lit "[")) rfl (hrec.mono (by omega)) (by omega) (by omega) (by omega) hru
       have hjson : (if pretty = true then Rs.pushStr json (Rs.strLit "[\n") else Rs.pushChar json 91)
           = json ++ (if pretty then Fn.lit "[\n" else Fn.lit "[") := by
         cases pretty <;> simp [pushStr_eq, pushChar_eq, strLit_eq_lit, encodeChar_lb]
-      simp only [add_usize_lit 4 offset (by omega), hmul, add_usize_lit (4 + offset) (4 * hdrLen h) (by omega), hinc,
+      simp only [add_usize_lit 4 offset (by omega), hmul, hmul', add_usize_lit (4 + offset) (4 * hdrLen h) (by omega), hinc,
         Ctl.ofRes_ok', Ctl.val_bind', Rs.forRange_nat, Nat.sub_zero]
       cases hm : Fn.arrayItems fmt f value (hdrLen h) 0 (4 + offset) (4 + offset + 4 * hdrLen h) pretty (indent + 2) with
       | fuel => rw [hm] at hne; exact absurd rfl hne
@@ -100,13 +102,15 @@ theorem container_to_string_step (fmt : Nat → Bytes) (g f : Nat) (value : Byte
       have hinc := pretty_opts_inc_indent_agrees pretty indent (by omega)
       have hmul : Rs.mul .usize ((8 : Nat) : Int) ((hdrLen h : Nat) : Int) = .ok ((8 * hdrLen h : Nat) : Int) :=
         Rs.mul_usize_nat 8 (hdrLen h) (by omega)
+      have hmul' : Rs.mul .usize ((hdrLen h : Nat) : Int) ((8 : Nat) : Int) = .ok ((8 * hdrLen h : Nat) : Int) := by
+        rw [Rs.mul_usize_nat (hdrLen h) 8 (by omega), Nat.mul_comm]
       have hcap : Rs.vecWithCapacity (Int × Int) 16 ((hdrLen h : Nat) : Int) = .ok [] := by
         unfold Rs.vecWithCapacity
         have : IntTy.isize.maxVal = 9223372036854775807 := rfl
         rw [if_pos (by rw [this]; omega)]
       have hkeys := cts_loop2_run value (offset : Int) (json ++ (if pretty then Fn.lit "{\n" else Fn.lit "{")) (hdrLen h) ((0 : Nat) : Int) []
         (4 + offset) (4 + offset + 8 * hdrLen h) (by omega) (by omega)
-      simp only [add_usize_lit 4 offset (by omega), hmul, add_usize_lit (4 + offset) (8 * hdrLen h) (by omega), hinc, hcap,
+      simp only [add_usize_lit 4 offset (by omega), hmul, hmul', add_usize_lit (4 + offset) (8 * hdrLen h) (by omega), hinc, hcap,
         Ctl.ofRes_ok', Ctl.val_bind', Rs.forRange_nat, Nat.sub_zero]
       cases hfk : fillKeys value (hdrLen h) (4 + offset) (4 + offset + 8 * hdrLen h) with
       | none =>
